@@ -466,9 +466,16 @@ def _check(case):
                 with os.fdopen(fd, "wb") as f:
                     f.write(text2.encode("utf-8"))
                 model2 = parser.parse_file(path)
+                # the run has ANOTHER default language (--lang / language= argument): the header of the file decides
+                other = ("de", "fr", "ja", "en")[(len(text2) + len(feat.get("lang") or "en")) % 4]
+                model3 = parser.parse_file(path, language=other) if other != (feat.get("lang") or "en") else None
             finally:
                 os.unlink(path)
             cmp_feature(Cmp(res, "parse_file"), model2, facts2)
+            if model3 is not None:
+                cmp_feature(Cmp(res, "parse_file(language=%s) of a file with a '# language: %s' header"
+                                % (other, feat.get("lang") or "en")), model3, facts2)
+                res.label("via-file:other-default-language")
             res.evals = 2
             res.label("via-file")
             if model2 is not None and not res.violations:
@@ -739,7 +746,7 @@ def explore(rec):
 
 def required_labels(tier):
     return ["examples-without-table:last-of-its-outline", "rule", "outline>=2examples", "docstring", "escaped-pipe", "non-english", "noise", "and-but-star", "alias",
-            "via-file", "line-endings:crlf", "line-endings:cr", "parser-reuse", "parser-reuse:non-english", "describe-roundtrip", "entry:steps", "entry:scenario", "entry:rule", "entry:tags", "entry:steps:with-comment-lines",
+            "via-file", "via-file:other-default-language", "line-endings:crlf", "line-endings:cr", "parser-reuse", "parser-reuse:non-english", "describe-roundtrip", "entry:steps", "entry:scenario", "entry:rule", "entry:tags", "entry:steps:with-comment-lines",
             "substeps:non-english"]
 
 
